@@ -75,8 +75,54 @@ def seeds(rng):
     return out
 
 
+def pubstring(t, imprint, good_crc=True):
+    """a publication string built from scratch: base32(time ‖ imprint ‖ crc32), grouped by 6"""
+    import base64, zlib
+    data = t.to_bytes(8, "big") + imprint
+    crc = zlib.crc32(data) & 0xffffffff
+    if not good_crc:
+        crc ^= 1
+    b = base64.b32encode(data + crc.to_bytes(4, "big")).decode().rstrip("=")
+    return "-".join(b[i:i + 6] for i in range(0, len(b), 6))
+
+
+def targeted(rng):
+    """inputs aimed at the bounds the parsers check: legacy-id lengths, imprint algorithm / length combinations behind a
+    correct CRC, fast-reader buffers one or two octets short, user info without a colon"""
+    # legacy identifiers with every length octet around the bound, in a signature whose identity is then extracted
+    for n in (0, 1, 24, 25, 26, 27, 28, 29, 100, 255):
+        for pad in (0, 1):
+            s = S.build(rng, nchains=1, with_cal=False, anchor="none")
+            name = b"a" * min(n, 26)
+            data = (bytes([3, 0, n]) + name + bytes(29))[:29 - pad * 0] if not pad else (bytes([3, 0, n]) + name + b"\x01" * 29)[:29]
+            s.chains[0].links[0] = S.Link(True, None, "l", data)
+            s.chains[0].index[-1] = s.chains[0].shape()
+            s.relink()
+            yield "sig %s %d" % (hx(s.enc()), rng.randrange(0, 6))
+    # publication strings whose CRC is right but whose imprint is not one: unknown algorithm, digest too short / long
+    for alg, dl in ((1, 32), (1, 31), (1, 33), (1, 0), (0, 20), (3, 32), (6, 32), (0x7e, 32), (0xff, 32), (4, 48), (4, 32), (5, 64), (5, 63), (2, 20), (11, 32)):
+        for ok in (True, False):
+            yield "pubs %s %d" % (hx(pubstring(1400000000, bytes([alg]) + rng.randbytes(dl), ok).encode()), rng.randrange(0, 6))
+    yield "pubs %s 0" % hx(pubstring(1400000000, b"").encode())
+    # the file variant of the fast reader: buffers from far too small to exactly right
+    for body in (tlv(0x01, rng.randbytes(5)), tlv(0x123, rng.randbytes(9)), tlv(0x01, rng.randbytes(300)), tlv(0x1fff, b""), tlv(0x02, rng.randbytes(255)),
+                 tlv(0x02, rng.randbytes(256)), tlv(0x03, rng.randbytes(4), force16=True)):
+        for bs in sorted(set([0, 1, 2, 3, 4, 5, len(body) - 3, len(body) - 2, len(body) - 1, len(body), len(body) + 1, len(body) + 100])):
+            if bs >= 0:
+                yield "ffile %s %d" % (hx(body), bs)
+                yield "ffile %s %d" % (hx(body[:max(len(body) - 2, 0)]), bs)
+    # service URIs through the full splitter: user info with and without a key, empty parts
+    for u in ("ksi+http://user@host.example/p", "ksi+tcp://user@host.example:1", "ksi+http://user:@h/", "ksi+http://:key@h/", "ksi+http://@h/", "ksi://u:k@h:1/p?q#f",
+              "http://user@h", "ksi+tcp://u@h", "ksi+tcp://u:k@h", "file:///tmp/x", "ksi+http://u:k:extra@h/", "ksi+http://" + "u" * 300 + "@h/", "ksi+http://u%40x@h/"):
+        yield "svc %s" % hx(u.encode())
+        for _ in range(3):
+            yield "svc %s" % hx(mutate(rng, u.encode()).replace(b"\x00", b"0") or b"x")
+
+
 def gen(rng, tier):
     big = tier == "thorough"
+    for l in targeted(rng):
+        yield l
     sd = seeds(rng)
     n = 60 if not big else 500
     for kind in ("sig", "apdu", "epdu", "pubf", "tlv"):
@@ -155,7 +201,10 @@ CONFIG.translators = [tables.gen_templates, tables.gen_hashalgs, tables.gen_poli
 CONFIG.engines = [Engine("c12", ["exec_c12.c"], "drv_c12", gen, trivial=trivial,
                          env={"LSAN_OPTIONS": "suppressions=%s:print_suppressions=0" % os.path.join(core.VERIF, "harness", "lsan.supp"),
                               "ASAN_OPTIONS": "detect_leaks=1:abort_on_error=0:exitcode=99:allocator_may_return_null=1:fast_unwind_on_malloc=0"})]
-CONFIG.rule = ("op lines from one PRNG (VERIF_SEED). Seeds: every .ksig / .gtts / PDU / publications file / other TLV file under test/resource/tlv (up to "
+CONFIG.rule = ("op lines from one PRNG (VERIF_SEED). Targeted inputs first: legacy identifiers with length octets {0, 1, 24..29, 100, 255} in a signature "
+               "whose identity is then extracted; publication strings built from scratch with a correct or wrong CRC around imprints of unknown "
+               "algorithm or wrong digest length; KSI_FTLV_fileRead into heap buffers from 0 octets to exactly right (and with the file two octets "
+               "short); service URIs with user info with / without a key through KSI_CTX_setAggregator / setExtender / setPublicationUrl. Seeds: every .ksig / .gtts / PDU / publications file / other TLV file under test/resource/tlv (up to "
                "70000 octets) plus reference-built signatures, aggregation and extension PDUs (v1, v2) and a publications file; each seed as is and "
                "60 (quick) / 500 (thorough) structure-aware mutations per kind (bit flips, boundary octets, deletions, insertions, self-splices, "
                "truncation, extension). Entry points: KSI_Signature_parseWithPolicy (then serialize, clone, verification under all seven policies, "
